@@ -6,7 +6,7 @@ from curtsies.formatstring import FmtStr, fmtstr
 from curtsies.formatstringarray import FSArray, fsarray
 from curtsies.window import BaseWindow
 import re
-from props.common import chunks_for, PALETTE
+from props.common import chunks_for, eff_cells, PALETTE
 
 PROP = "C04"
 MODULES = ["Curtsies.Properties.C04", "Curtsies.Properties.C04Text"]
@@ -41,6 +41,19 @@ ASSUMPTIONS = ["plain str rows containing ESC '[' are IN the domain (the propert
 
 import collections
 BLANK = (" ", ())
+_raw_cells = cells
+
+
+def cells(f):       # noqa: F811
+    """per-character cells with their EFFECTIVE formatting - what the cell shows: an explicit False style and an absent key
+    are the same formatting. Every verdict-bearing comparison (oracle, property-level tie, footprints) uses these; the raw
+    attribute dicts are compared in the representation-level tie only (canon / canon_rows)."""
+    return eff_cells(_raw_cells(f))
+
+
+def eff_chunks(chunks):
+    return wire.eff_cells_of_chunks(chunks)
+
 HEIGHT_AFTER_RAISE = collections.Counter()   # (height before, height after) of calls that raised
 RAISED_TYPEERROR = [0]
 FMT_ARGS = [((), {}), (("blue",), {"bold": True}), ((), {"bg": "red", "underline": False}), (("on_cyan", "italic"), {})]
@@ -73,8 +86,8 @@ def value_rows(v):
     if v["k"] == "str":
         return [[(ch, ())] for ch in v["s"]]
     if v["k"] == "list":
-        return [[(ch, ()) for ch in it[1]] if it[0] == "s" else wire.cells_of_chunks(it[1]) for it in v["items"]]
-    return [wire.cells_of_chunks(r) for r in v["rows"]]
+        return [[(ch, ()) for ch in it[1]] if it[0] == "s" else eff_chunks(it[1]) for it in v["items"]]
+    return [eff_chunks(r) for r in v["rows"]]
 
 
 def enc_value_items(v):
@@ -98,7 +111,7 @@ def py_idx(ix):
 
 def ctor_atts(fa):
     args, kwargs = FMT_ARGS[fa]
-    return dict(fmtstr("", *args, **dict(kwargs)).chunks[0].atts)
+    return dict(fmtstr("x", *args, **dict(kwargs)).chunks[0].atts)     # a non-empty text: how "" is represented is not our business
 
 
 def mk_array(c):
@@ -217,7 +230,7 @@ def norm_grid(rows):
     blank rows are dropped (a missing cell and an unformatted space both show blank)"""
     out = []
     for r in rows:
-        r = list(r)
+        r = eff_cells(list(r))          # effective formatting (property level)
         while r and r[-1] == BLANK:
             r.pop()
         out.append(tuple(r))
@@ -592,7 +605,7 @@ def oracle_raw(c, model_reply=None):
     if c["kind"] == "fsarray":
         args, kwargs = FMT_ARGS[c["fa"]]
         atts = tuple(sorted(ctor_atts(c["fa"]).items()))
-        want = [[(ch, atts) for ch in it[1]] if it[0] == "s" else wire.cells_of_chunks(it[1]) for it in c["strings"]]
+        want = [eff_cells([(ch, atts) for ch in it[1]]) if it[0] == "s" else eff_chunks(it[1]) for it in c["strings"]]
         w = c["width"] if c["width"] is not None else max([len(x) for x in want] + [0])
         fits = all(len(x) <= w for x in want)
         try:
